@@ -70,7 +70,7 @@ func gen(t *rapid.T) Case {
 		k := rapid.IntRange(0, 9).Draw(t, "kind")
 		switch {
 		case k <= 4 || fresh == 0:
-			s := world.GenSpec(t, fmt.Sprintf("s%d", i))
+			s := world.GenSpecX(t, fmt.Sprintf("s%d", i))
 			c.Steps = append(c.Steps, Step{Kind: "fresh", Spec: &s})
 			fresh++
 		case k <= 6:
@@ -354,21 +354,37 @@ func check(t *testing.T, c Case) (v harness.Verdict) {
 		if len(b.Full) >= 4 {
 			v.Class("chain>=4")
 		}
+		switch {
+		case b.Spec.RootOnly:
+			v.Class("root-submitted-alone")
+		case b.Spec.RootTwin == 1:
+			v.Class("reissued-root-copy-in-chain")
+		case b.Spec.RootTwin == 2:
+			v.Class("cross-certificate-of-trusted-root-in-chain")
+		}
 	}
 	for i, s := range c.Steps {
 		switch s.Kind {
 		case "fresh":
 			b := world.Build(*s.Spec)
-			// a fresh spec may collide with an earlier leaf only if IDs and every choice coincide; then it is a new
-			// certificate anyway (fresh signature), so it is never a duplicate.
-			submit(i, b, b.Submit, nil)
+			// a fresh spec yields the very certificate of an earlier step when it names the same root on its own
+			// (or coincides in every choice under a deterministic signature scheme): that is a duplicate
+			var dup *first
+			for k := range firsts {
+				if bytes.Equal(firsts[k].built.Leaf.DER, b.Leaf.DER) {
+					f := firsts[k]
+					dup = &f
+					break
+				}
+			}
+			submit(i, b, b.Submit, dup)
 		case "resubmit":
 			if len(firsts) == 0 {
 				continue
 			}
 			f := firsts[s.Ref%len(firsts)]
 			chain := f.built.Submit
-			if s.FlipRoot {
+			if s.FlipRoot && !f.built.Spec.RootOnly {
 				if len(chain) == len(f.built.Full) {
 					chain = f.built.Full[:len(f.built.Full)-1]
 				} else {
@@ -402,7 +418,7 @@ func quotaOpts(on bool) func(*ctfe.InstanceOptions) {
 }
 
 func describe(b *world.Built) string {
-	return fmt.Sprintf("precert=%v preissuer=%v piAKI=%v leafAKI=%v inters=%v leaf=%s poison@%d", b.Spec.Precert, b.Spec.PreIssuer, b.Spec.PreIssAKI, b.Spec.LeafAKI, b.Spec.Inters, b.Spec.LeafKind, b.Spec.PoisonPos)
+	return fmt.Sprintf("precert=%v preissuer=%v piAKI=%v leafAKI=%v inters=%v leaf=%s poison@%d roottwin=%d rootonly=%v", b.Spec.Precert, b.Spec.PreIssuer, b.Spec.PreIssAKI, b.Spec.LeafAKI, b.Spec.Inters, b.Spec.LeafKind, b.Spec.PoisonPos, b.Spec.RootTwin, b.Spec.RootOnly)
 }
 
 var SCT = harness.Define(harness.Opts{
